@@ -56,8 +56,17 @@ fn generate_doc(
     version_comment: bool,
 ) -> Result<Gen, (Stage, SlinkyError)> {
     let rs = make_rs(opts, version_comment);
+    generate_doc_rs(document, &rs, partial)
+}
+
+// the same from given runtime settings (which may be reused and updated between generations)
+fn generate_doc_rs(
+    document: &slinky::Document,
+    rs: &RuntimeSettings,
+    partial: bool,
+) -> Result<Gen, (Stage, SlinkyError)> {
     if partial {
-        let mut w = slinky::PartialLinkerWriter::new(document, &rs);
+        let mut w = slinky::PartialLinkerWriter::new(document, rs);
         w.add_whole_document(document)
             .map_err(|e| (Stage::Generate, e))?;
         let joined = w
@@ -77,7 +86,7 @@ fn generate_doc(
         }
         let deps = match document
             .settings
-            .target_path_escaped(&rs)
+            .target_path_escaped(rs)
             .map_err(|e| (Stage::Export, e))?
         {
             Some(t) => Some(
@@ -99,7 +108,7 @@ fn generate_doc(
             symbols,
         })
     } else {
-        let mut w = slinky::LinkerWriter::new(document, &rs);
+        let mut w = slinky::LinkerWriter::new(document, rs);
         w.add_whole_document(document)
             .map_err(|e| (Stage::Generate, e))?;
         let script = w
@@ -107,7 +116,7 @@ fn generate_doc(
             .map_err(|e| (Stage::Export, e))?;
         let deps = match document
             .settings
-            .target_path_escaped(&rs)
+            .target_path_escaped(rs)
             .map_err(|e| (Stage::Export, e))?
         {
             Some(t) => Some(
@@ -391,11 +400,19 @@ fn main() {
                                 let a = generate_doc(&document, &opts, partial, version_comment)?;
                                 let _ = generate_doc(&document, &other, partial, version_comment);
                                 let b = generate_doc(&document, &opts, partial, version_comment)?;
-                                Ok::<(Gen, Gen), (Stage, SlinkyError)>((a, b))
+                                // one RuntimeSettings reused: every key first given another value, a generation,
+                                // then the values of this case (the option map is now that of a fresh object)
+                                let shadow: Vec<(String, String)> =
+                                    opts.iter().map(|(k, v)| (k.clone(), format!("{}~", v))).collect();
+                                let mut rs = make_rs(&shadow, version_comment);
+                                let _ = generate_doc_rs(&document, &rs, partial);
+                                rs.add_custom_options(opts.iter().cloned());
+                                let c = generate_doc_rs(&document, &rs, partial)?;
+                                Ok::<(Gen, Gen, Gen), (Stage, SlinkyError)>((a, b, c))
                             });
                             match r {
-                                Ok(Ok((a, b))) => {
-                                    for x in [&a, &b] {
+                                Ok(Ok((a, b, c))) => {
+                                    for x in [&a, &b, &c] {
                                         if x.script != g.script
                                             || x.joined != g.joined
                                             || x.partials != g.partials
